@@ -359,6 +359,50 @@ def addr_id(a):
     return int(a.rsplit("peer", 1)[1])
 
 
+class RawText(str):
+    """a memo whose bytes are NOT text (a sender that bypasses str): rend sees a str whose encode() gives these bytes"""
+    def __new__(cls, raw):
+        o = super().__new__(cls, "?" * len(raw))
+        o._raw = bytes(raw)
+        return o
+
+    def encode(self, *a, **k):
+        return self._raw
+
+
+def as_text(b):
+    b = bytes(b)
+    try:
+        return b.decode()
+    except UnicodeDecodeError:
+        return RawText(b)
+
+
+_MIDS = []
+
+
+def mids_distinct():
+    """the REAL Memoer.makeMID under a coarse clock (every clock reading the same for the whole burst): ids of memos rent by one process must be
+    pairwise distinct and well-formed"""
+    if not _MIDS:
+        import time
+        from hio.core.memo import memoing
+        saved = {n: getattr(time, n) for n in ("time", "time_ns", "monotonic", "monotonic_ns", "perf_counter", "perf_counter_ns")}
+        t0 = time.time_ns()
+        try:
+            for n in saved:
+                setattr(time, n, (lambda v: (lambda: v))(t0 if n.endswith("_ns") else t0 / 1e9))
+            try:
+                ms = [memoing.Memoer.makeMID() for _ in range(64)] + [memoing.Memoer().makeMID() for _ in range(8)]
+            except BaseException as ex:
+                ms = ["raised:" + type(ex).__name__]
+        finally:
+            for n, f in saved.items():
+                setattr(time, n, f)
+        _MIDS.append(len(set(ms)) == len(ms) and all(isinstance(m, str) and len(m) == 24 for m in ms))
+    return _MIDS[0]
+
+
 def norm_ops(batches):
     """receive history as a list of ops: ("all", batch) serviceAllRx | ("svc", batch) service() | ("once", batch) serviceAllRxOnce |
     ("rxg", batch) serviceReceives + serviceRxGrams | "close" | "reopen".
@@ -579,9 +623,9 @@ def run_e2e(code, curt, size, authic, ki, memos, sched, hist=(), txpath="rend"):
         s._mids = list(allmids)
         for j_, m in enumerate(memos):
             if j_ % 2:
-                sown["txms"].append((bytes(m[0]).decode(), addr(m[2]), vid))      # queued through the application's own deque
+                sown["txms"].append((as_text(m[0]), addr(m[2]), vid))      # queued through the application's own deque
             else:
-                s.memoit(bytes(m[0]).decode(), addr(m[2]), vid)
+                s.memoit(as_text(m[0]), addr(m[2]), vid)
         got = {}
         fails = {}
         guard = 0
@@ -613,7 +657,7 @@ def run_e2e(code, curt, size, authic, ki, memos, sched, hist=(), txpath="rend"):
         for i, m in enumerate(memos):
             assign(m[3] if len(m) > 3 else ())
             s._mids = [allmids[i]]
-            text = bytes(m[0]).decode()
+            text = as_text(m[0])
             try:
                 if txq == "rend":
                     gs = s.rend(text, vid)
@@ -647,6 +691,8 @@ def run_e2e(code, curt, size, authic, ki, memos, sched, hist=(), txpath="rend"):
     bad = replaced(r, r._own) + replaced(s, {k: v for k, v in sown.items() if k != "txbs"})
     if bad:
         res.append(("callers-container-replaced",) + tuple(bad))
+    if not mids_distinct():
+        res.append(("memo-ids-not-distinct-within-a-clock-tick",))
     stab = []
     seen = set()
     for v, ser, sig in s.signlog:
